@@ -292,6 +292,11 @@ def check_survival(repo, rep, rm, rule):
     # the peer-indexed lookups themselves (enumerated by reading, must still exist: otherwise re-read)
     dmsg = repo.func("dimse_messages", "DIMSEMessage.decode_msg")
     srcd = " ".join(ast.unparse(s_) for s_ in body_nodoc(dmsg))
+    # ... or the methods of the message decode_msg hands part of the work to
+    dci = repo.mod("dimse_messages").classes.get("DIMSEMessage")
+    for c_ in walk_no_nested(dmsg):
+        if isinstance(c_, ast.Call) and isinstance(c_.func, ast.Attribute) and norm(c_.func.value) == "self" and dci is not None and c_.func.attr in dci.methods:
+            srcd += " " + " ".join(ast.unparse(s_) for s_ in body_nodoc(dci.methods[c_.func.attr]))
     need_ = ["data[0]", "_MESSAGE_TYPES[", "self.command_set.CommandDataSetType"]
     for s in need_:
         if s not in srcd:
